@@ -326,10 +326,11 @@ fn child_main(tier: Tier, spec: &str) -> i32 {
         }
     }
     drop(one);
+    let cpu_s = std::fs::read_to_string("/proc/self/schedstat").ok().and_then(|t| t.split_whitespace().next().and_then(|x| x.parse::<f64>().ok())).unwrap_or(0.0) / 1e9;
     let outcomes: BTreeMap<String, (u64, u64)> = run.outcomes.iter().map(|(k, v)| (k.to_string(), *v)).collect();
     let res = json!({
         "cases": cases, "calls": run.calls, "outcomes": outcomes, "panics": res_panics,
-        "panic_counts": seen_fp, "slowest_s": slowest.0, "slowest_index": slowest.1, "sample": sample,
+        "panic_counts": seen_fp, "slowest_s": slowest.0, "slowest_index": slowest.1, "sample": sample, "cpu_s": cpu_s,
     });
     if std::fs::write(format!("{dir}/{id}.keys"), &keys).is_err() || std::fs::write(format!("{dir}/{id}.res.json"), res.to_string()).is_err() {
         eprintln!("C20 child: cannot write result");
@@ -474,6 +475,7 @@ fn replay_doc(family: &str, index: u64, bytes: &[u8], route: u64) -> J {
 struct FamStat {
     cases: u64,
     calls: u64,
+    cpu_s: f64,
 }
 
 fn merge_result(ctx: &Ctx, stats: &Mutex<BTreeMap<String, FamStat>>, fam: &str, r: &J, keys: &[u8], slow: &Mutex<(f64, String, u64)>) {
@@ -503,6 +505,7 @@ fn merge_result(ctx: &Ctx, stats: &Mutex<BTreeMap<String, FamStat>>, fam: &str, 
         let e = s.entry(fam.to_string()).or_default();
         e.cases += l.evaluations;
         e.calls += l.transitions;
+        e.cpu_s += r["cpu_s"].as_f64().unwrap_or(0.0);
     }
     {
         let mut s = slow.lock().unwrap();
@@ -581,7 +584,16 @@ fn parent(tier: Tier) -> i32 {
     let mut shards: Vec<Shard> = vec![];
     let mut fam_table: Vec<J> = vec![];
     let mut total_cases = 0u64;
+    let only = std::env::var("MC_C20_ONLY").ok();
+    if only.is_some() {
+        ctx.cap_hit("MC_C20_ONLY is set: only some families were swept (debugging aid, not a verdict)");
+    }
     for (i, f) in fams.iter().enumerate() {
+        if let Some(o) = &only {
+            if !o.split(',').any(|p| f.name().starts_with(p)) {
+                continue;
+            }
+        }
         let n = f.count();
         total_cases += n;
         fam_table.push(json!({"family": f.name(), "cases": n}));
@@ -714,6 +726,7 @@ fn parent(tier: Tier) -> i32 {
             if let Some(st) = s.get(&name) {
                 row["swept"] = json!(st.cases);
                 row["calls"] = json!(st.calls);
+                row["child_cpu_s"] = json!((st.cpu_s * 100.0).round() / 100.0);
             }
         }
     }
@@ -727,7 +740,9 @@ fn parent(tier: Tier) -> i32 {
     ctx.set_info("slowest_case", json!({"seconds_inside_sweep": sl.0, "family": sl.1, "index": sl.2}));
     ctx.set_info("child_stack_limit_kb", json!(stack));
     ctx.set_info("seed_documents", J::Array(seeds.iter().map(|s| json!({"name": s.name, "kind": s.kind, "bytes": s.bytes.len()})).collect()));
-    let _ = std::fs::remove_dir_all(&dir);
+    if std::env::var("MC_C20_KEEP").is_err() {
+        let _ = std::fs::remove_dir_all(&dir);
+    }
     let q = tier == Tier::Quick;
     ctx.finish(
         "case = one input (family, index) fed to every entry point of its route; class = <entry point>:ok|err counted per entry-point call; non-trivial = at least one entry point accepted the input, so a downstream pipeline (print, to_json, to_pst, format, validate strict/permissive/partial/level, authorize, partial authorize, TPE, link, protobuf round trip) ran on it; transitions = guarded calls into cedar (entry points + pipeline steps + error renderings)",
